@@ -977,9 +977,11 @@ func writeEvidence(c *checkCfg, tier string, seed int64, reports []*harnessRepor
 			"explanation":                   "Every path of every harness within the stated bounds was executed symbolically over the SSA of /repo's current source; each vpAssert reached produced the query PC ∧ ¬cond, all of which must be unsat. Bounds per harness are in 'harnesses[].Bounds'.",
 		},
 	}
-	os.MkdirAll(filepath.Join(verifDir, "evidence"), 0o755)
+	// (VERIF_EVIDENCE_DIR: development runs that must not replace the committed evidence)
+	dir := envOr("VERIF_EVIDENCE_DIR", filepath.Join(verifDir, "evidence"))
+	os.MkdirAll(dir, 0o755)
 	b, _ := json.MarshalIndent(ev, "", " ")
-	os.WriteFile(filepath.Join(verifDir, "evidence", c.Property+".json"), b, 0o644)
+	os.WriteFile(filepath.Join(dir, c.Property+".json"), b, 0o644)
 }
 
 func cmdSelftest() int {
